@@ -209,6 +209,22 @@ func enumC15(tier string, e *engine.Emitter) {
 			}
 		}
 	}
+	// YAML mappings whose keys are not strings, or are strings that print like them: whatever the reader does with
+	// them (reject, convert), it must do the same on every call
+	yl := []string{"1: a\n", "\"1\": b\n", "1.0: c\n", "true: d\n", "\"true\": e\n", "~: f\n", "\"\": g\n", "a: h\n", "0x1: i\n", "k:\n  1: x\n  \"1\": y\n", "? [1]\n: j\n", "01: k\n"}
+	var recY func(prefix string, n int)
+	recY = func(prefix string, n int) {
+		if n > 0 {
+			e.Emit(engine.Case{Kind: "c15yaml", Leg: "determinism/yaml-mappings", A: prefix})
+		}
+		if n == 3 {
+			return
+		}
+		for _, l := range yl {
+			recY(prefix+l, n+1)
+		}
+	}
+	recY("", 0)
 	// hand-written hunk sequences (as text): a later hunk may write below what an earlier hunk added
 	nd := c15NativeDiffs()
 	for _, t := range []string{`{}`, `{"a":{"b":0},"b":1}`} {
@@ -386,6 +402,36 @@ func runC15(c *engine.Case) engine.Result {
 	det := strings.HasPrefix(c.Kind, "c15det:")
 	if strings.HasPrefix(c.Kind, "c15iso:") {
 		return runC15Iso(c, kind)
+	}
+	if c.Kind == "c15yaml" {
+		res.Bucket = "determinism/yaml/rejected"
+		first := ""
+		p := impl.Guard(func() {
+			for rep := 0; rep < 30; rep++ {
+				out := ""
+				n, err := jd.ReadYamlString(c.A)
+				res.Transitions++
+				if err != nil {
+					out = "error" // which offending key an error names may follow map order; only accept / reject is compared
+				} else {
+					res.Bucket = "determinism/yaml/accepted"
+					res.Nontrivial = true
+					out = n.Json() + "\n" + n.Yaml()
+				}
+				if rep == 0 {
+					first = out
+				} else if out != first {
+					res.Violation = fmt.Sprintf("reading the same YAML text twice gives different documents: %q then (repetition %d) %q", first, rep, out)
+					res.Sig = "non-deterministic YAML reading"
+					return
+				}
+			}
+		})
+		if p != "" {
+			res.Violation = p
+		}
+		res.Traces = 1
+		return res
 	}
 	p := impl.Guard(func() {
 		if det {
